@@ -4,6 +4,7 @@ import OpusProofs.SilkParamsGains
 import OpusProofs.SilkParamsDec
 import OpusProofs.SilkParamsRangeNlsf2a
 import OpusProofs.SilkParamsRangeBridge
+import OpusProofs.SilkParamsRangeInvGain
 /-
   C18 — SILK side information always dequantises to stable, in-range parameters.
 
@@ -425,6 +426,75 @@ theorem decode_pitch_nowrap (lagIndex contour fs : Int) (nb : Nat) (tab : List I
 
 example : pitchCodebook 16 4 = .ok (SilkNlsf.cbLagsStage3, 34) ∧
     pitchTrace SilkNlsf.cbLagsStage3 34 (-32768) 33 16 2 = [32, 288, -32736, 33, -32745, 32, 67, -32739, 32] := by
+  decide +kernel
+
+/-- `silk_LPC_inverse_pred_gain_c` (LPC_inv_pred_gain.c:43-141) for EVERY `opus_int16` filter of
+    order 1..24 (`SILK_MAX_ORDER_LPC`), every level the recursion reaches: (1) the wrapper's running
+    `DC_resp` and every `A_Q12[k] << 12` fit 32 bits (`invGainTopTrace`); (2) per level
+    (`invGainLoopTrace`) `A_QA[k] << 7`, its negation `rc_Q31` (never `-silk_int32_MIN`), the operands of
+    the `(opus_int32)` casts of both `silk_SMMUL`, `rc_mult1_Q30 ∈ [536765, 2^30]` (the code's
+    `silk_assert( rc_mult1_Q30 > (1<<15) )` holds), `invGain_Q30 ∈ [0, 2^30]`, `mult2Q ∈ [20, 31]`,
+    inside `silk_INVERSE32_varQ` `b_headrm`, the normalised `b32_nrm ∈ [2^30, 2^31)`, `b32_inv` (fits the
+    `opus_int16` operand of `silk_SMULWB`), `b32_inv << 16`, the `silk_SMULWB` cast operand,
+    `(1<<29) - …`, `lshift = 0`, and the operand of the cast in every `MUL32_FRAC_Q( tmp, rc_Q31, 31 )`
+    all fit 32 bits; (3) every `silk_SMULL` product and every step of `silk_RSHIFT_ROUND64`
+    (`invGainLoopTrace64`) fits 64 bits; (4) the divisor of `silk_DIV32_16` lies in [16384, 32767] (never
+    0).  The new `A_QA[n]` are range-checked by the C code itself before the `(opus_int32)` cast.
+    Deliberate saturation / defined narrowing, modelled as such: `silk_SUB_SAT32`, and the explicit casts
+    of the Newton step (`silk_SMLAWW`, `silk_LSHIFT( ·, 3 )`) inside `silk_INVERSE32_varQ`. -/
+theorem inverse_pred_gain_nowrap (a : List Int) (hI : AllI16 a) (hl : a.length ≤ 24) :
+    (∀ v ∈ invGainTopTrace a 0, I32 v) ∧
+    ∀ k, a.length = k + 1 →
+      (∀ v ∈ invGainLoopTrace k (a.map fun x => lshift32 x (SilkNlsf.invGainQA - 12)) 1073741824, I32 v) ∧
+      (∀ v ∈ invGainLoopTrace64 k (a.map fun x => lshift32 x (SilkNlsf.invGainQA - 12)) 1073741824, I64 v) ∧
+      (∀ v ∈ invGainLoopDivisors k (a.map fun x => lshift32 x (SilkNlsf.invGainQA - 12)) 1073741824,
+        16384 ≤ v ∧ v ≤ 32767) :=
+  lpcInversePredGain_range a hI hl
+
+example : invGainTopTrace [4000, -300, 20] 0 = [4000, 16384000, 3700, -1228800, 3720, 81920] ∧
+    invGainLoopDivisors 2 ([4000, -300, 20].map fun x => lshift32 x 12) 1073741824 = [32767, 32614] ∧
+    (invGainLoopTrace 2 ([4000, -300, 20].map fun x => lshift32 x 12) 1073741824).length = 41 := by
+  decide +kernel
+
+/-- Analytic content of the stability test (towards "stable" beyond the codec's own verdict).  If
+    `silk_LPC_inverse_pred_gain_c( A_Q12 ) ≠ 0` then (a) the DC response `Σ A_Q12[k]` is below 4096
+    (1.0 in Q12), (b) the fixed-point step-down (Levinson) recursion ran through all `order` levels
+    without any updated coefficient leaving 32 bits, and (c) EVERY reflection coefficient it derived —
+    `lpcReflectionQ24 a` lists minus the reflection coefficients `A_QA[k]` in Q24, from the last level
+    down — has magnitude at most `A_LIMIT = 16773022 = 0.99975·2^24`, i.e. `|rc_k| ≤ 0.99975 < 1`; the
+    returned value `Π (1 - rc_k²)` (in the recursion's Q30 arithmetic) is at least
+    `1/MAX_PREDICTION_POWER_GAIN` (Q30: 107374).  What this does NOT say: that the real-arithmetic
+    reflection coefficients of the real-coefficient filter are below 1 (the recursion rounds at every
+    level; closing that gap needs an error analysis of `silk_INVERSE32_varQ` and `silk_RSHIFT_ROUND64`). -/
+theorem inverse_pred_gain_reflection_bounded (a : List Int) (h : lpcInversePredGain a ≠ 0) :
+    lpcInversePredGain.sumI a < 4096 ∧ (lpcReflectionQ24 a).length = a.length ∧
+    (∀ r ∈ lpcReflectionQ24 a, -16773022 ≤ r ∧ r ≤ 16773022) ∧ 107374 ≤ lpcInversePredGain a := by
+  have h1 := lpcInversePredGain_rcs a h
+  rw [alimit_eq] at h1
+  refine ⟨h1.1, h1.2.1, h1.2.2, ?_⟩
+  rcases lpcInversePredGain_ge a with h2 | h2
+  · exact absurd h2 h
+  · exact h2
+
+example : lpcInversePredGain [4000, -300, 20] = 176564420 ∧
+    lpcReflectionQ24 [4000, -300, 20] = [81920, -1148827, 15328748] := by decide +kernel
+
+/-- The same for the output of `silk_NLSF2A`: for every input of 10 or 16 values in `[0, 32767]` the
+    model's Q12 filter has all reflection coefficients of the fixed-point recursion bounded by 0.99975
+    and DC response below 1.0 — strengthening `nlsf2a_passes_stability` from "the test returned
+    non-zero" to the certificate the test computes.  (For order 16 the statement is about the C function
+    only where `a32_QA1` fits 32 bits, see `nlsf2a_nowrap_d16_partial`.) -/
+theorem nlsf2a_reflection_bounded (nlsf : List Int) (hd : nlsf.length = 10 ∨ nlsf.length = 16)
+    (hr : ∀ e ∈ nlsf, 0 ≤ e ∧ e ≤ 32767) :
+    ∃ a, nlsf2a nlsf = .ok a ∧ a.length = nlsf.length ∧ lpcInversePredGain.sumI a < 4096 ∧
+      (lpcReflectionQ24 a).length = a.length ∧ ∀ r ∈ lpcReflectionQ24 a, -16773022 ≤ r ∧ r ≤ 16773022 := by
+  obtain ⟨a, ha, hl, _, hg⟩ := nlsf2a_spec nlsf hd hr
+  have h1 := lpcInversePredGain_rcs a hg
+  rw [alimit_eq] at h1
+  exact ⟨a, ha, hl, h1.1, h1.2.1, h1.2.2⟩
+
+example : lpcReflectionQ24 [10411, -10758, 10164, -11137, 7494, -3318, 2083, -869, -92, 102] =
+    [417792, 685515, -2921403, 386465, -4601996, 11415106, -1973817, 4817321, -16111762, 16681179] := by
   decide +kernel
 
 end OpusProps.C18
